@@ -5,154 +5,100 @@ import CpProps.C05
   composed again, the composition is accepted, gives the same object and consumes everything
   (`Canonical`, CpProps/C05.lean).  It follows from `RoundTrip` and `ParseWf` for ONE predicate.
 
-  Certificate: unconditional.
-  The hello messages: `ParseWf` holds up to the accepted values whose re-parse depends on their
-  neighbour (`Stray` = `ShortSVS` ∨ `Ext2Stray`): the body parsers of the extension classes are not
-  confined to the declared extension length.  `TlsExtensionSupportedVersionsServer` reads a fixed two
-  bytes; when fewer than two are declared it reads into the NEXT extension, and if that does not
-  spell a known version the extension is kept as `TlsExtensionUnparsed` (`ShortSVS`, server side only).
-  The classes with structured bodies (server_name, ALPN, key_share, status_request, SCT list, …) read
-  length prefixes and items wherever they lead; when that ends in `InvalidValue` without the data
-  itself being rejectable (`Ext2Rejects`), the extension is kept raw (`Ext2Stray`, both sides).  The
-  full statements are kept as `def … : Prop`; the client one has a witness.
+  ClientHello, ServerHello / HelloRetryRequest, Certificate: unconditional.  Every extension class
+  reads its own extension only (`_check_header` hands it a parser confined to the declared data), so
+  nothing an extension is parsed to depends on its neighbours: data a class refuses — as an invalid
+  value, or because its body declares more than the extension holds (the variant reports that as an
+  invalid value once the extension is there in full) — is refused wherever it stands (`KindRejects`)
+  and kept by the fallback class.
+
+  What is still NOT canonical on the wire (accepted, recomposed differently, the recomposition
+  stable): a class may consume LESS than the extension declares; the rest is parsed as a further
+  extension (last examples).
 -/
 namespace Cp.C05
 open Cp Cp.Codec Cp.Tls Cp.Hello
 
-/-- the full statement for the client side: whatever `TlsHandshakeClientHello._parse` accepts is a
-constructible value — FALSE of the code once the structured extension classes are looked at -/
-def clientHello_parseWf_full : Prop := ParseWf clientHelloCodec ClientHelloWf
+/-- whatever `TlsHandshakeClientHello._parse` accepts is a constructible, canonical value -/
+theorem clientHello_parseWf : ParseWf clientHelloCodec ClientHelloWf := Tls.clientHello_parseWf
 
-/-- a ClientHello whose ALPN extension declares NO data, followed by an extension of type 2 with 256
-bytes of data: the ALPN parser reads the `00 02` of the next header as the length of its name list
-and the `01 00` after it as a one-byte name `00`, which the table lacks → `InvalidValue`; the ALPN
-extension is kept raw with empty data — a value that is not constructible as such (an empty ALPN
-body reads on into whatever follows it) -/
-def strayAlpnHello : Bytes :=
-  let exts : Bytes := [0, 16, 0, 0] ++ [0, 2, 1, 0] ++ List.replicate 256 0
-  let body : Bytes := [3, 3] ++ List.replicate 32 7 ++ [0, 0, 2, 0x13, 0x01, 1, 0] ++ [1, 8] ++ exts
-  [1, 0, 1, 51] ++ body
-
-theorem clientHello_parseWf_fails : ¬ clientHello_parseWf_full := by
-  intro h
-  have hp : clientHelloCodec.parse strayAlpnHello =
-      .ok (⟨4, ⟨0x07070707, List.replicate 28 7⟩, [], [.known 361], [.known 0],
-        [⟨"TlsExtensionUnparsed", 16, .raw []⟩, ⟨"TlsExtensionUnparsed", 2, .raw (List.replicate 256 0)⟩],
-        false, false⟩, 311) := by
-    decide +kernel
-  have hw := h _ _ _ hp
-  have he := hw.extensions.each ⟨"TlsExtensionUnparsed", 16, .raw []⟩ (List.mem_cons_self ..)
-  cases he with
-  | unknownType _ _ hno => exact absurd (by decide +kernel) hno
-  | unparsed _ _ hr => exact absurd hr (by decide +kernel)
-  | noClass _ _ hr => exact absurd hr (by decide +kernel)
-  | rejected _ _ hr hne hk hrej =>
-    have hcls : resolve Gen.extVariantsClient 16 ([] : Bytes).length =
-        some "TlsExtensionApplicationLayerProtocolNegotiation" := by decide +kernel
-    rw [hcls] at hr
-    cases hr
-    cases hk
-    exact hrej
-  | parsed _ _ _ hne _ _ _ => exact absurd rfl hne
-
-/-- what holds: the accepted value is constructible unless it contains such a stray extension -/
-theorem clientHello_parseWf_partial (b : Bytes) (v : ClientHello) (n : Nat)
-    (h : clientHelloCodec.parse b = .ok (v, n)) :
-    ClientHelloWf v ∨ ∃ e ∈ v.extensions, Ext2Stray Gen.extVariantsClient e :=
-  Tls.clientHello_parseWf_partial b v n h
-
-/-- the full canonical-form statement for the client side; not proved (a stray extension recomposes
-to the same bytes in the same place, so no counterexample either) -/
-def clientHello_canonical_full : Prop := Canonical clientHelloCodec
-
-theorem clientHello_canonical_partial (b : Bytes) (v : ClientHello) (n : Nat)
-    (h : clientHelloCodec.parse b = .ok (v, n))
-    (hno : ∀ e ∈ v.extensions, ¬ Ext2Stray Gen.extVariantsClient e) :
-    ∃ b', clientHelloCodec.compose v = .ok b' ∧ clientHelloCodec.parse b' = .ok (v, b'.length) ∧
-      ∀ v'' n'', clientHelloCodec.parse b' = .ok (v'', n'') → clientHelloCodec.compose v'' = .ok b' := by
-  rcases Tls.clientHello_parseWf_partial b v n h with hw | ⟨e, he, hs⟩
-  · obtain ⟨b', hb', hbb⟩ := Tls.clientHello_roundTrip v hw
-    have hp := hbb []
-    rw [List.append_nil] at hp
-    refine ⟨b', hb', hp, ?_⟩
-    intro v'' n'' h2
-    rw [hp] at h2
-    cases h2
-    exact hb'
-  · exact absurd hs (hno e he)
+theorem clientHello_canonical : Canonical clientHelloCodec :=
+  of_laws Tls.clientHello_roundTrip Tls.clientHello_parseWf
 
 theorem certificate_parseWf : ParseWf certificateCodec CertificatesWf := Tls.certificate_parseWf
 
 theorem certificate_canonical : Canonical certificateCodec :=
   of_laws Tls.certificate_roundTrip Tls.certificate_parseWf
 
-/-- the full statement for the server side; not proved (see the header) -/
-def serverHello_canonical_full : Prop :=
-  ∀ typ, typ = 2 ∨ typ = 6 → Canonical (serverHelloCodec typ)
+/-- whatever `TlsHandshakeServerHello._parse` / `TlsHandshakeHelloRetryRequest._parse` accept is a
+constructible, canonical value -/
+theorem serverHello_parseWf (typ : Nat) : ParseWf (serverHelloCodec typ) (ServerHelloWf typ) :=
+  Tls.serverHello_parseWf typ
 
-/-- what the server-side parser accepts is constructible and canonical, unless it contains a
-`supported_versions` extension kept raw with fewer than two data bytes -/
-theorem serverHello_parseWf_partial (typ : Nat) (b : Bytes) (v : ServerHello) (n : Nat)
-    (h : (serverHelloCodec typ).parse b = .ok (v, n)) :
-    ServerHelloWf typ v ∨ ∃ e ∈ v.extensions, Stray Gen.extVariantsServer e :=
-  Tls.serverHello_parseWf_partial typ b v n h
+theorem serverHello_canonical {typ : Nat} (htyp : typ = 2 ∨ typ = 6) : Canonical (serverHelloCodec typ) :=
+  of_laws (Tls.serverHello_roundTrip htyp) (Tls.serverHello_parseWf typ)
 
-theorem serverHello_canonical_partial {typ : Nat} (htyp : typ = 2 ∨ typ = 6) (b : Bytes) (v : ServerHello)
-    (n : Nat) (h : (serverHelloCodec typ).parse b = .ok (v, n))
-    (hno : ∀ e ∈ v.extensions, ¬ Stray Gen.extVariantsServer e) :
-    ∃ b', (serverHelloCodec typ).compose v = .ok b' ∧ (serverHelloCodec typ).parse b' = .ok (v, b'.length) ∧
-      ∀ v'' n'', (serverHelloCodec typ).parse b' = .ok (v'', n'') → (serverHelloCodec typ).compose v'' = .ok b' := by
-  rcases Tls.serverHello_parseWf_partial typ b v n h with hw | ⟨e, he, hs⟩
-  · obtain ⟨b', hb', hbb⟩ := Tls.serverHello_roundTrip htyp v hw
-    have hp := hbb []
-    rw [List.append_nil] at hp
-    refine ⟨b', hb', hp, ?_⟩
-    intro v'' n'' h2
-    rw [hp] at h2
-    cases h2
-    exact hb'
-  · exact absurd hs (hno e he)
+/-- one position of the extension vector of either side: the value is constructible as it stands -/
+theorem extension_parseWf {variants : List (String × Nat)} (hst : stableB variants = true) {p : VecParam}
+    {bs : Bytes} {exts : List Ext} {n : Nat} (h : parseExtensions variants p bs = .ok (exts, n)) :
+    ExtsWf variants p exts := parseExtensions_ok_inv hst h
 
-/-- on the client side the `supported_versions` shape cannot occur: no class of the client variant
-reads a fixed-size value that can be rejected -/
-theorem client_has_no_shortSVS (e : Ext) : ¬ ShortSVS Gen.extVariantsClient e := client_no_shortSVS e
+/-! ### inputs that used to be parsed by reading across extension boundaries
 
-/-! ### accepted inputs that are not in canonical form (evaluated on the model) -/
+Confined to its own data, the class runs short inside a complete extension; the variant reports that as
+an invalid value and the list keeps the extension by the fallback class — whatever follows it. -/
+
+/-- a ClientHello whose ALPN extension declares NO data, followed by an extension of type 2: the ALPN
+parser used to read the next header as its name list; now both extensions are kept raw, each with its
+own data -/
+def strayAlpnHello : Bytes :=
+  let exts : Bytes := [0, 16, 0, 0] ++ [0, 2, 1, 0] ++ List.replicate 256 0
+  let body : Bytes := [3, 3] ++ List.replicate 32 7 ++ [0, 0, 2, 0x13, 0x01, 1, 0] ++ [1, 8] ++ exts
+  [1, 0, 1, 51] ++ body
+
+example : clientHelloCodec.parse strayAlpnHello =
+    .ok (⟨4, ⟨0x07070707, List.replicate 28 7⟩, [], [.known 361], [.known 0],
+      [⟨"TlsExtensionUnparsed", 16, .raw []⟩, ⟨"TlsExtensionUnparsed", 2, .raw (List.replicate 256 0)⟩],
+      false, false⟩, 311) := by decide +kernel
 
 /-- a ServerHello around an extension block -/
 def serverHelloWith (exts : Bytes) : Bytes :=
   let body : Bytes := [3, 3] ++ List.replicate 32 7 ++ [0, 0x13, 0x01, 0] ++ encNat .network 2 exts.length ++ exts
   [2] ++ encNat .network 3 body.length ++ body
 
-/-- the exceptional shape is reachable: `supported_versions` with ONE data byte followed by
-`renegotiation_info` is accepted, the first extension kept raw -/
+/-- `supported_versions` with ONE data byte followed by `renegotiation_info`: the class used to read
+`03 ff` across the boundary; now the one byte is kept raw and the neighbour is parsed as what it is -/
 example : (serverHelloCodec 2).parse (serverHelloWith [0, 43, 0, 1, 3, 0xff, 0x01, 0, 1, 0]) =
     .ok (⟨2, 4, ⟨0x07070707, List.replicate 28 7⟩, [], 361, 0,
       [⟨"TlsExtensionUnparsed", 43, .raw [3]⟩, ⟨"TlsExtensionRenegotiationInfo", 65281, .opaque []⟩]⟩, 54) := by
   decide +kernel
 
-/-- … and the same raw extension in front of another neighbour does NOT survive compose → parse:
-the class reads `03 04` across the extension boundary (C01 fails for this non-canonical value) -/
-example : ∃ b, (serverHelloCodec 2).compose ⟨2, 4, ⟨0x07070707, List.replicate 28 7⟩, [], 361, 0,
-      [⟨"TlsExtensionUnparsed", 43, .raw [3]⟩, ⟨"TlsExtensionUnparsed", 0x0401, .raw []⟩,
-       ⟨"TlsExtensionUnparsed", 0x0401, .raw []⟩]⟩ = .ok b ∧
-    (serverHelloCodec 2).parse b = .error (.notEnough 8) :=
-  ⟨serverHelloWith [0, 43, 0, 1, 3, 4, 1, 0, 0, 4, 1, 0, 0], by decide +kernel, by decide +kernel⟩
+/-- one declared byte of `ec_point_formats` that announces three formats, followed by
+`extended_master_secret` -/
+example : (serverHelloCodec 2).parse (serverHelloWith [0, 11, 0, 1, 3, 0, 23, 0, 0]) =
+    .ok (⟨2, 4, ⟨0x07070707, List.replicate 28 7⟩, [], 361, 0,
+      [⟨"TlsExtensionUnparsed", 11, .raw [3]⟩, ⟨"TlsExtensionExtendedMasterSecret", 23, .empty⟩]⟩, 53) := by
+  decide +kernel
 
-/-- the declared extension length is not enforced: six declared bytes of `ec_point_formats`, of
-which the class uses two; the remaining four are parsed as a further extension -/
+/-- an extension that is cut short by the end of the list is still `NotEnoughData` -/
+example : (serverHelloCodec 2).parse (serverHelloWith [0, 11, 0, 1, 3, 0, 23, 0]) = .error (.notEnough 1) := by
+  decide +kernel
+
+/-- a rejected value stays rejected wherever it stands: `supported_versions` with an unknown version
+is kept by the fallback class, in front of any neighbour -/
+example : (serverHelloCodec 2).parse (serverHelloWith [0, 43, 0, 2, 9, 9, 0xff, 0x01, 0, 1, 0]) =
+    .ok (⟨2, 4, ⟨0x07070707, List.replicate 28 7⟩, [], 361, 0,
+      [⟨"TlsExtensionUnparsed", 43, .raw [9, 9]⟩, ⟨"TlsExtensionRenegotiationInfo", 65281, .opaque []⟩]⟩, 55) := by
+  decide +kernel
+
+/-! ### accepted inputs that are not in canonical form (evaluated on the model) -/
+
+/-- the declared extension length is not enforced from below: six declared bytes of
+`ec_point_formats`, of which the class uses two; the remaining four are parsed as a further extension -/
 example : (serverHelloCodec 2).parse (serverHelloWith [0, 11, 0, 6, 1, 0, 0, 23, 0, 0]) =
     .ok (⟨2, 4, ⟨0x07070707, List.replicate 28 7⟩, [], 361, 0,
       [⟨"TlsExtensionECPointFormats", 11, .coded [.known 0]⟩,
        ⟨"TlsExtensionExtendedMasterSecret", 23, .empty⟩]⟩, 54) := by
   decide +kernel
-
-/-- … and one declared byte of which the class reads four (the canonical form differs from the
-input, and is stable) -/
-example : ∃ v, (serverHelloCodec 2).parse (serverHelloWith [0, 11, 0, 1, 3, 0, 1, 2]) = .ok (v, 52) ∧
-    (serverHelloCodec 2).compose v = .ok (serverHelloWith [0, 11, 0, 4, 3, 0, 1, 2]) :=
-  ⟨⟨2, 4, ⟨0x07070707, List.replicate 28 7⟩, [], 361, 0,
-      [⟨"TlsExtensionECPointFormats", 11, .coded [.known 0, .known 1, .known 2]⟩]⟩,
-    by decide +kernel, by decide +kernel⟩
 
 end Cp.C05
